@@ -16,4 +16,16 @@ PROPS = {
         assumptions=['ing_raw_on_success: an ingester returns a raw record whenever it reports success '
                      '(proved for the built-in ingester; required of caller-supplied ones)'],
     ),
+    'C18': dict(
+        harness='c18', props='Props/C18.v', models=['Model/Encoding.v'],
+        trusted=['the name -> decoder map (supportedEncodingMappings), the default/fallback name of WrapEncoding and the order '
+                 'StripBOM(WrapEncoding(input)) are extracted from header/header.go and schema.go into Gen/Encoding.v on every run',
+                 'golang.org/x/text charmap decoders are modelled as bytewise table decoders; their 2x256 table entries are '
+                 'observed through WrapEncoding and compared with the model tables (written from the Unicode mapping files) on every run',
+                 'bufio.Reader.ReadRune / UnreadRune inside ios.StripBOM are modelled by utf8.DecodeRune on the whole input (Base/Utf8.v); '
+                 'validated with one-byte, data+EOF and random chunk readers',
+                 'the format readers are not modelled here: equality of Read transcripts is decided on the Go side '
+                 '(transcript(bytes, X) == transcript(utf8_of_X(bytes), utf-8)) for the seven formats'],
+        assumptions=[],
+    ),
 }
